@@ -22,6 +22,7 @@ ALPHA = Alphabet(
     fac=[((T0,), "a", False, "ok"), ((T1, T0), "a", False, "ok"), ((T1, T0), "a", False, "badname"), ((T1, T0), "a", False, "nonetype")],
     look=[(T0, "a", "nowait"), (T1, "a", "nowait")],
     leave=False,
+    drop=True,
 )
 ALPHA_T = Alphabet(max_ctx=2, add=ALPHA.add, fac=ALPHA.fac, look=[(T0, "a", "nowait"), (T1, "a", "await")], leave=True)
 
@@ -39,7 +40,7 @@ def params(tier):
 def rfn(a, tier):
     alpha, K = cfg(tier)
     ops = decode(a, alpha, K)
-    div, eng = run_history(ops, listen=True, check_events=True, check_teardown=True)
+    div, eng = run_history(ops, listen="extra", check_events=True, check_teardown=True)
     summary = {"history": [o.text() for o in ops], "views_compared": eng.compared}
     if div is not None:
         if "C03" in div.classes:
